@@ -7,7 +7,7 @@ TRACE_CFG = "UcdaoTrace.cfg"
 
 MANIFEST_ENTRY = dict(engine="Ucdao", design="§4 C12",
    technique="TLA+ spec Ucdao.tla: TLC exhaustive model checking of the ledger invariants and step effects; TLC-simulated behaviours replayed on the real x/ucdao message server; every recorded step validated by TLC against the property layer (trace validation)",
-   text="Exhaustive TLC model checking of the DAO ledger design (all sequences of fund/transfer messages over 3 accounts, 3 denominations, small amounts, including owner=newOwner, refused denominations and the disabled module) proves the ledger invariants and exact step effects on the model; the binding to the code is two-way: TLC-generated behaviours are executed on the real message server and every step of those and of seeded random large-amount scenarios is checked by TLC against the effect functions and invariants of the property layer.",
+   text="Exhaustive TLC model checking of the DAO ledger design (all sequences of fund/transfer messages over 3 accounts, 3 denominations, small amounts, including owner=newOwner, refused denominations and the disabled module; a second configuration interleaves bank MsgSend / MsgMultiSend whose recipients include the DAO module account, with the hypothetical unblocked module account as counterexample witness) proves the ledger invariants and exact step effects on the model; the binding to the code is two-way: TLC-generated behaviours are executed on the real message server and every step of those and of seeded random large-amount scenarios is checked by TLC against the effect functions and invariants of the property layer.",
    note="Bounded by the constants in specs/Ucdao_*.cfg; messages run through MsgServiceRouter handlers on a cached context (baseapp.runMsgs semantics) rather than full DeliverTx; TLC, the Json community module and the BigNum override are trusted.")
 
 
@@ -124,6 +124,8 @@ def run(c):
             raise Infra("signature %s did not reproduce from %s" % (s, path))
     c.add_violations(confirmed)
     c.assumptions += [
+        "a transfer by ratio states the amount ratio x balance; P reads 'exactly' over whole base units as: never more than ratio x balance and less than one unit short of it",
+        "of the ways coins can reach an address only bank MsgSend and MsgMultiSend are interleaved with the DAO messages (not IBC receive, EVM value transfer, vesting or erc20 conversion)",
         "TLC 1.8.0 and the BigNum Java override (java/BigNum.java) are trusted",
         "the projection in harness/ucdao.go reads the real stores through keeper getters and the Holders query",
         "messages are executed through MsgServiceRouter handlers on a cached context (as baseapp.runMsgs does), not through full DeliverTx",
